@@ -415,7 +415,7 @@ fn short(o: &Outcome) -> String {
     }
 }
 
-pub const BREAKS: [&str; 13] = [
+pub const BREAKS: [&str; 14] = [
     "duplicate_id",
     "duplicate_builtin_id",
     "unknown_variant_in_path",
@@ -429,6 +429,7 @@ pub const BREAKS: [&str; 13] = [
     "missing_id",
     "missing_data_type",
     "unknown_data_type",
+    "own_parent",
 ];
 
 /// derive a broken declaration; None if this valid declaration offers no site for the edit
@@ -548,6 +549,19 @@ pub fn break_decl(t: &mut Tape, d: &Decl, kind: usize) -> Option<Decl> {
         "unknown_data_type" => {
             let i = t.below(n);
             b.vars[i].ty_text = Some((*t.pick(&["Date", "Uint", "master", "String"])).to_string());
+        }
+        "own_parent" => {
+            // an element that names itself as its parent: its path cannot extend "its parent's" declared path
+            if masters.is_empty() {
+                return None;
+            }
+            let i = masters[t.below(masters.len())];
+            let me = b.vars[i].name.clone();
+            if t.chance(1, 2) {
+                b.vars[i].path = vec![PP::Name(me)];
+            } else {
+                b.vars[i].path.push(PP::Name(me));
+            }
         }
         _ => return None,
     }
